@@ -8,9 +8,11 @@
      OUnregister p  UnregisterPeer: channel send
      OReadReq       reader, idle: receive from notifyReceivedRequest
      OReadUnreg     reader, idle: receive from notifyUnregisteredPeer and drop the peer's sessions
-     OReader        reader, busy: next step of the request being processed (see [rpc])
+     OReader        reader, busy: next step of the request being processed (see [rpc]); the
+                    addition to pendingResponsesSize and the Enqueue that may block are two steps
      ODeliver i     sender worker i: run the task at the head of its queue
-                    (sendChunk callback, then pendingResponsesSize -= memSize)
+                    (sendChunk callback, then pendingResponsesSize -= memSize; one label: the state
+                    between the two has the pending size of the state before the label)
 
    A step that is not enabled (empty channel, full channel, pending size at its limit, sender
    queue full) returns None.  Every interleaving of the goroutines is a sequence of labels, so
@@ -68,7 +70,8 @@ Inductive rpc :=
 | RIdle                                           (* in select *)
 | RTop (rq : request)                             (* received; at the first waitPendingResponsesBelowLimit *)
 | RChunk (rq : request) (i : N) (ss : sess)       (* at the loop head, iteration i, local [session] = ss *)
-| RSend (rq : request) (i : N) (ss : sess) (r : resp). (* response built; at the second wait / Enqueue *)
+| RSend (rq : request) (i : N) (ss : sess) (r : resp)  (* response built; at the second waitPendingResponsesBelowLimit *)
+| REnq (rq : request) (i : N) (ss : sess) (r : resp).  (* memSize added to pendingResponsesSize; at Enqueue (blocks while the sender's task channel is full) *)
 
 Record state := mkSt {
   st_sessions : list ((N * N) * sess);    (* s.sessions, key (peer, sid) *)
@@ -210,18 +213,26 @@ Definition reader_chunk (db : list item) (st : state) (rq : request) (i : N) (ss
          (st_serial st)
   else set_reader st RIdle.
 
-(* reader at the second wait + Enqueue.  s.senders[session.senderI] with an index out of range
-   would panic and kill the reader: modelled as "not enabled" (cannot happen when
-   SenderThreads >= 1). *)
+(* reader at the second wait: atomic.AddInt64(&s.pendingResponsesSize, memSize) once the
+   pending size is below the limit *)
+Definition reader_add (cfg : config) (st : state) (rq : request) (i : N) (ss : sess) (r : resp)
+  : option state :=
+  if st_pending st <? c_limit cfg then
+    Some (mkSt (st_sessions st) (st_peersess st) (st_counter st) (st_chreq st) (st_chunreg st)
+               (REnq rq i ss r) (st_senders st) (st_pending st + resp_mem cfg r) (st_serial st))
+  else None.
+
+(* reader at s.senders[session.senderI].Enqueue(...): blocks while the worker's task channel is
+   full.  An index out of range would panic and kill the reader: modelled as "not enabled"
+   (cannot happen when SenderThreads >= 1). *)
 Definition reader_send (cfg : config) (st : state) (rq : request) (i : N) (ss : sess) (r : resp)
   : option state :=
-  if (st_pending st <? c_limit cfg) &&
-     (N.of_nat (length (nth (s_sender ss) (st_senders st) [])) <=? c_maxtasks cfg) &&
+  if (N.of_nat (length (nth (s_sender ss) (st_senders st) [])) <=? c_maxtasks cfg) &&
      (Nat.ltb (s_sender ss) (length (st_senders st))) then
     Some (mkSt (st_sessions st) (st_peersess st) (st_counter st) (st_chreq st) (st_chunreg st)
                (RChunk rq (i + 1) ss)
                (list_upd (s_sender ss) (fun q => q ++ [r]) (st_senders st))
-               (st_pending st + resp_mem cfg r) (st_serial st))
+               (st_pending st) (st_serial st))
   else None.
 
 Fixpoint del_all (p : N) (sids : list N) (table : list ((N * N) * sess)) : list ((N * N) * sess) :=
@@ -274,6 +285,8 @@ Definition step (v : variant) (cfg : config) (db : list item) (st : state) (o : 
       | RTop rq => if st_pending st <? c_limit cfg then Some (reader_top v cfg st rq) else None
       | RChunk rq i ss => Some (reader_chunk db st rq i ss, [])
       | RSend rq i ss r =>
+          match reader_add cfg st rq i ss r with Some st' => Some (st', []) | None => None end
+      | REnq rq i ss r =>
           match reader_send cfg st rq i ss r with Some st' => Some (st', [EEnq r]) | None => None end
       end
   | ODeliver i =>
@@ -370,10 +383,19 @@ Definition sched (v : variant) (cfg : config) (db : list item) (held : bool) (st
       if held then (pre ++ fst (sched_reader 200 v cfg db st1), true)
       else (pre ++ fst (sched_drain drain_fuel v cfg db st1), false)
   | HUnreg p =>
-      (* the harness flushes first, so that the two input channels are never raced *)
-      let '(ops0, st0) := sched_drain drain_fuel v cfg db st in
-      let st1 := fst (run v cfg db st0 [OUnregister p]) in
-      (ops0 ++ OUnregister p :: fst (sched_reader 200 v cfg db st1), false)
+      (* while holding, with the reader idle and nothing left in the request channel, the harness
+         unregisters without releasing the held responses (they stay in the sender queues while
+         the peer's sessions are dropped); otherwise it flushes first, so that the two input
+         channels are never raced.  With a small MaxSenderTasks the reader may be blocked in
+         Enqueue, which the harness cannot observe: it always flushes then. *)
+      let idle := match st_reader st, st_chreq st with RIdle, [] => true | _, _ => false end in
+      if held && idle && (128 <=? c_maxtasks cfg) then
+        let st1 := fst (run v cfg db st [OUnregister p]) in
+        (OUnregister p :: fst (sched_reader 200 v cfg db st1), true)
+      else
+        let '(ops0, st0) := sched_drain drain_fuel v cfg db st in
+        let st1 := fst (run v cfg db st0 [OUnregister p]) in
+        (ops0 ++ OUnregister p :: fst (sched_reader 200 v cfg db st1), false)
   | HHold => ([], true)
   | HFlush => (fst (sched_drain drain_fuel v cfg db st), false)
   end.
